@@ -43,9 +43,17 @@ impl Read for ChoiceReader<'_> {
         if buf.is_empty() {
             return Ok(0);
         }
-        if self.failed.is_some() {
-            // a reader that failed keeps failing the same way (the wrapper must not retry past an error)
-            return Err(io::Error::new(ErrorKind::Other, "read after injected failure"));
+        if let Some((_, what)) = &self.failed {
+            // An end of stream stays one. An injected error was transient (a non-blocking stream that has
+            // data again, a timeout that passed): the reader delivers from then on, so a wrapper that
+            // retries past an error other than `Interrupted` returns Ok and is seen to have swallowed it.
+            if what.starts_with("eof") {
+                return Err(io::Error::new(ErrorKind::Other, "read after end of stream"));
+            }
+            let req = buf.len().min(self.data.len() - self.pos);
+            buf[..req].copy_from_slice(&self.data[self.pos..self.pos + req]);
+            self.pos += req;
+            return Ok(req);
         }
         let avail = self.data.len() - self.pos;
         let req = buf.len().min(avail);
@@ -97,8 +105,13 @@ impl Write for ChoiceWriter<'_> {
         if buf.is_empty() {
             return Ok(0);
         }
-        if self.failed.is_some() {
-            return Err(io::Error::new(ErrorKind::Other, "write after injected failure"));
+        if let Some((_, what)) = &self.failed {
+            // as for the reader: an injected error was transient, the writer accepts everything afterwards
+            if what == "write-zero" {
+                return Err(io::Error::new(ErrorKind::Other, "write after injected failure"));
+            }
+            self.sink.extend_from_slice(buf);
+            return Ok(buf.len());
         }
         let n_partial = buf.len() - 1;
         let has_int = self.interrupts < MAX_INTERRUPTS;
